@@ -72,8 +72,9 @@ PROPS["C02"] = dict(
 )
 
 PROPS["C07"] = dict(
-    suites=[http_suite("http-swarm-counts", 0b01011, monitor="mon_c07")],
-    rule="histories of 8..67 announce/scrape/clean ops on the real aquatic_http swarm storage (hook H5, mock clock H1) over 4 info hashes, "
+    suites=[http_suite("http-swarm-counts", 0b01011, monitor="mon_c07"),
+            dict(name="http-sys-bookkeeping", harness="http-sys", imports=["HttpSysCheck"], case_type="hsys_case", check="http_sys_code", monitor="http_sys_mon", count_quick=12, count_thorough=300, nontrivial_any=True, shrink=False, crash_is_violation=True)],
+    rule="http-sys-bookkeeping: the running-tracker histories of C16 (several swarm workers, audit scrapes at the end): counts and peer lists against the reference tracker; histories of 8..67 announce/scrape/clean ops on the real aquatic_http swarm storage (hook H5, mock clock H1) over 4 info hashes, "
          "8 addresses (v4, v6, v4-mapped), ports incl. 0 and 65535, all events, left in {0,1,usize::MAX}, numwant None/0/1..9/usize::MAX, "
          "max_peers in {0..7,50}, max_scrape_torrents in {0,1,2,3,100}, repeated hashes in one scrape, cleaning at deadline-1/deadline/+1, "
          "all three access-list modes; non-trivial = history crosses inline->heap->inline",
@@ -304,8 +305,10 @@ PROPS["C04"] = dict(
 PROPS["C05"] = dict(
     suites=[dict(name="validator", harness="validator", imports=["Validator"],
                  case_type="N * list (string * N) * list (N * string * string * bool)",
-                 check="validator_code", monitor="validator_code", count_quick=300, count_thorough=20000, nontrivial_bits=3, shrink=False)],
-    rule="real ConnectionValidator with the clock override (hook H2): max_connection_age in {0,1,59,60,61,120,2^31,2^32-2,2^32-1}, ids issued "
+                 check="validator_code", monitor="validator_code", count_quick=300, count_thorough=20000, nontrivial_bits=3, shrink=False),
+            dict(name="udp-sys-ids", harness="udp-sys", imports=["UdpSysCheck"], case_type="sys_case", check="udp_sys_code", monitor="udp_sys_code", count_quick=8, count_thorough=100, nontrivial_any=True, shrink=False, extra={"backend": "mio"}, crash_is_violation=True),
+            dict(name="udp-sys-ids-uring", harness="udp-sys", imports=["UdpSysCheck"], case_type="sys_case", check="udp_sys_code", monitor="udp_sys_code", count_quick=8, count_thorough=100, nontrivial_any=True, shrink=False, extra={"backend": "uring"}, crash_is_violation=True)],
+    rule="udp-sys-ids: the running-tracker suite of C06 on both backends (own / foreign-address / forged / other-instance / bit-flipped / expired connection ids; the tracker's clock read from marker connects): requests are answered exactly when the id is valid for the source; real ConnectionValidator with the clock override (hook H2): max_connection_age in {0,1,59,60,61,120,2^31,2^32-2,2^32-1}, ids issued "
          "by the implementation at edge/random times for 6 addresses of both families, then queried at issue time, at t0+age-1 / t0+age / "
          "t0+age+1, at t0-59/-60/-61, at 2^32-1 and at random clocks, from the same and from other addresses, plus a third of all single-bit "
          "alterations, 4 double-bit alterations, a forged id and a far-future id per issued id; the keyed hash is read back from the "
@@ -360,8 +363,11 @@ PROPS["C03"] = dict(
     suites=[dict(name="addr", harness="addr", imports=["Addr"], case_type="bool * list addr_case", check="addr_code", monitor="addr_code",
                  count_quick=300, count_thorough=10000, nontrivial_bits=3, shrink=False),
             udp_suite("udp-swarm-keys", 0b00011, monitor="mon_c01", count_quick=240),
-            http_suite("http-swarm-keys", 0b00011, monitor="mon_c07", count_quick=200)],
-    rule="addr: the real CanonicalSocketAddr::new and IpVersion::canonical_from_ip on IPv4, IPv4-mapped, near-mapped (one pattern octet off), "
+            http_suite("http-swarm-keys", 0b00011, monitor="mon_c07", count_quick=200),
+            dict(name="udp-sys-addresses", harness="udp-sys", imports=["UdpSysCheck"], case_type="sys_case", check="udp_sys_code", monitor="udp_sys_code", count_quick=8, count_thorough=100, nontrivial_any=True, shrink=False, extra={"backend": "mio"}, crash_is_violation=True),
+            dict(name="udp-sys-addresses-uring", harness="udp-sys", imports=["UdpSysCheck"], case_type="sys_case", check="udp_sys_code", monitor="udp_sys_code", count_quick=8, count_thorough=100, nontrivial_any=True, shrink=False, extra={"backend": "uring"}, crash_is_violation=True),
+            dict(name="http-sys-addresses", harness="http-sys", imports=["HttpSysCheck"], case_type="hsys_case", check="http_sys_code", monitor="http_sys_mon", count_quick=12, count_thorough=300, nontrivial_any=True, shrink=False, crash_is_violation=True)],
+    rule="udp-sys-addresses / http-sys-addresses: the running-tracker suites of C06 and C16 (clients on 127.0.0.1, 127.0.0.2, ::1 and v4 clients reaching a dual-stack v6 socket as ::ffff:127.0.0.1): the peers handed out must carry the canonical SOURCE address of the announcing datagram / connection and the announced port; addr: the real CanonicalSocketAddr::new and IpVersion::canonical_from_ip on IPv4, IPv4-mapped, near-mapped (one pattern octet off), "
          "loopback and random IPv6 addresses with ports {0,1,6881,65535}; the real aquatic_http parse_request (hook H5) behind / not behind a "
          "reverse proxy with 0..3 extra headers among {X-Forwarded-For (several occurrences), x-forwarded-for, X-Real-IP, Accept, "
          "X-Forwarded-For2}, values that are comma lists of IPv4 / IPv6 / mapped / malformed / empty texts with blanks and tabs, with "
